@@ -93,7 +93,9 @@ def replay(scn):
     return replay_take(scn, kind_variants(scn), signature)
 
 
-def replay_take(scn, variants, signature):
+def replay_take(scn, variants, signature, extra_variants=()):
+    """variants: lists of label kinds (one per dimension).  extra_variants: dicts(kinds, idx_kinds, mixed) where the index
+    values are encoded with another kind than the axis (e.g. fractional slice bounds on an integer axis)"""
     i = scn["in"]
     a_abs = i["a"]
     mode = i["mode"]
@@ -102,13 +104,21 @@ def replay_take(scn, variants, signature):
     calls = 0
     # numeric variants are replayed a second time with shifted labels so that 0 and negative labels occur
     variants = [(k, 0) for k in variants] + [(k, off) for k, off in zip(variants, (-4, -2, -6)) if "s" not in k][:1 + len(variants) // 2]
+    variants = list(variants) + [(ev, None) for ev in extra_variants]
     for vi, (kinds, off) in enumerate(variants):
-        codec = A.LabelCodec(offset=off)
-        kind = "".join(kinds) + ("" if not off else "@%d" % off)
+        idx_kinds = None
+        if off is None:
+            ev = kinds
+            kinds, idx_kinds = ev["kinds"], ev["idx_kinds"]
+            codec = A.LabelCodec(mixed=ev.get("mixed", False))
+            kind = "".join(kinds) + "/idx=" + "".join(idx_kinds)
+        else:
+            codec = A.LabelCodec(offset=off)
+            kind = "".join(kinds) + ("" if not off else "@%d" % off)
         tol = codec.tol(i["tol"][0], kinds[0]) if i["tol"] else None
         for si, sp in enumerate(read_spellings(mode, i["idxs"], a_abs["dims"], tol)):
             form = (si + vi) % 2
-            tup = index_tuple(i["idxs"], kinds, codec, mode, form)
+            tup = index_tuple(i["idxs"], idx_kinds or kinds, codec, mode, form)
             prev = None
             try:
                 if sp in OPTION_SPELLINGS:
